@@ -23,17 +23,7 @@ import vlib
 # Deviations that exist on the unchanged tree and are not yet registered in known_findings.json.
 # Remove an entry when it is registered there (or fixed in /repo: a fixed defect leaves K and is
 # judged strictly again).
-PROPOSED_KNOWN = [
-    {"property": "C12", "deviation": "RegFieldUnlockedMetaRead",
-     "what": "data race on Object.meta: regField (root.go) reads obj.meta again for the method look-up after it "
-             "released obj.mu, while assureType of another request writes it under obj.mu",
-     "proposal": "proposals/C12/regfield-unlocked-meta-read.md (+ .fix.diff)"},
-    {"property": "C12", "deviation": "LearnedBindingVisible",
-     "what": "a request's response depends on which other requests ran before/beside it: a Go type whose binding "
-             "is only learned from an object-typed position (name differs, no @go, not registered) becomes visible "
-             "to the look-ups for interface- and union-typed fields of other requests",
-     "proposal": "proposals/C12/learned-binding-visible.md"},
-]
+PROPOSED_KNOWN = []   # RegFieldUnlockedMetaRead is repaired in /repo, LearnedBindingVisible is listed in known_findings.json
 
 CFG = """SPECIFICATION {spec}
 CONSTANTS
@@ -405,6 +395,7 @@ def negative_controls(ctx, up, vecs, hooks):
         neg = os.path.join(ctx.scratch, "neg-trace.ndjson")
         open(neg, "w").write("\n".join(lines) + "\n")
         sub = vlib.Ctx(ctx.prop, ctx.tier)
+        os.rmdir(sub.scratch)
         sub.scratch = ctx.scratch
         vs = judge(sub, neg, sorted(known_devs()))
         if vs[ti]["ok"]:
